@@ -71,16 +71,16 @@ def finishHeaders {V : Type} (be : Backend) (hc : HCfg) (cap : Nat) (buf : List 
 
 /-- `Request::parse_with_config_and_uninit_headers` -/
 def reqCore (be : Backend) (cfg : Config) (cap : Nat) (buf : List Byte) (v : ReqVal) : Res ReqVal :=
-  step (skipEmptyLines (Cur.new buf)) v fun _ c =>
-  step (parseMethod c) v fun m c =>
+  step ((skipEmptyLines).run (Cur.new buf)) v fun _ c =>
+  step ((parseMethod).run c) v fun m c =>
   let v := { v with method := some m }
-  step (optSkipSpaces cfg.multiReq c) v fun _ c =>
-  step (parseUri be c) v fun p c =>
+  step ((optSkipSpaces cfg.multiReq).run c) v fun _ c =>
+  step ((parseUri be).run c) v fun p c =>
   let v := { v with path := some p }
-  step (optSkipSpaces cfg.multiReq c) v fun _ c =>
-  step (parseVersion c) v fun ver c =>
+  step ((optSkipSpaces cfg.multiReq).run c) v fun _ c =>
+  step ((parseVersion).run c) v fun ver c =>
   let v := { v with version := some ver }
-  step (newline c) v fun _ c =>
+  step ((newline).run c) v fun _ c =>
   finishHeaders be cfg.reqH cap buf c v
 
 /-- the `match next!(bytes) { b' ' => …, b'\r' => …, b'\n' => …, _ => Err(Status) }` of the
@@ -102,14 +102,14 @@ def reasonBranch (multi : Bool) : P Str := do
 
 /-- `Response::parse_with_config_and_uninit_headers` -/
 def respCore (be : Backend) (cfg : Config) (cap : Nat) (buf : List Byte) (v : RespVal) : Res RespVal :=
-  step (skipEmptyLines (Cur.new buf)) v fun _ c =>
-  step (parseVersion c) v fun ver c =>
+  step ((skipEmptyLines).run (Cur.new buf)) v fun _ c =>
+  step ((parseVersion).run c) v fun ver c =>
   let v := { v with version := some ver }
-  step (space .version c) v fun _ c =>
-  step (optSkipSpaces cfg.multiResp c) v fun _ c =>
-  step (parseCode c) v fun code c =>
+  step ((space .version).run c) v fun _ c =>
+  step ((optSkipSpaces cfg.multiResp).run c) v fun _ c =>
+  step ((parseCode).run c) v fun code c =>
   let v := { v with code := some code }
-  step (reasonBranch cfg.multiResp c) v fun reason c =>
+  step ((reasonBranch cfg.multiResp).run c) v fun reason c =>
   let v := { v with reason := some reason }
   finishHeaders be cfg.respH cap buf c v
 
